@@ -9,10 +9,45 @@ constant pool, so adding tables to a module that other checks import silently ch
     scan_short_coord_scalars()   -> reproduces the table
     LEGACY_PEM_CIPHERS           -> {cipher name: (key bytes, block bytes)} of the traditional encrypted PEM form
     legacy_pem_encrypt(...)      -> independent writer of "Proc-Type: 4,ENCRYPTED" PEM text
+    subpool_specs("odd")         -> KeySpecs of a committed sub-pool keys/<dir>/*.key that is NOT part of
+                                    vlib.keys.specs() ("odd": RSA moduli whose bit length is not a multiple of 8,
+                                    every residue 1..7; written once by keys/gen_rsa_oddbits.py)
+    spec(name)                   -> vlib.keys.spec(name) that also resolves sub-pool names "<prefix>:<basename>"
 """
+import glob
+import os
+
 from cryptography.hazmat.primitives.asymmetric import ec
 
+from vlib import keys as _K
 from vlib.keys import _CURVES, curve_order
+
+# committed sub-pools /verif/keys/<dir>/*.key. They are not part of vlib.keys.specs(), so checks that enumerate
+# specs() do not change when a sub-pool is added; spec() below resolves their names in any process (replays).
+SUBPOOLS = {"odd": "rsa-oddbits"}
+_SUBSPECS = {}
+
+
+def subpool_specs(prefix):
+    """KeySpecs of the committed sub-pool ``prefix`` (stable order), named "<prefix>:<basename without .key>"."""
+    if prefix not in _SUBSPECS:
+        out = []
+        for p in sorted(glob.glob(os.path.join(_K.VERIF, "keys", SUBPOOLS[prefix], "*.key"))):
+            cls, fmt = _K._classify(p)
+            if cls is not None:
+                out.append(_K.KeySpec("%s:%s" % (prefix, os.path.basename(p)[:-4]), p, cls, None, fmt))
+        _SUBSPECS[prefix] = out
+    return list(_SUBSPECS[prefix])
+
+
+def spec(name):
+    """vlib.keys.spec, plus the sub-pool names."""
+    if ":" in name and name.split(":", 1)[0] in SUBPOOLS:
+        for s in subpool_specs(name.split(":", 1)[0]):
+            if s.name == name:
+                return s
+        raise KeyError(name)
+    return _K.spec(name)
 
 # Small private scalars d whose public point d*G has a coordinate with leading zero bytes in the fixed-width
 # (field size) big-endian form. Found by scanning d = 1, 2, 3, ... (scan_short_coord_scalars below reproduces
